@@ -40,7 +40,9 @@ def gen_default(ch, typ, label):
     if spicy and base == "float":
         return {"v": ch.choice(label + ".sfloat", [1e-09, 1e+20, -0.0, 3.0])}
     if spicy and base == "str":
-        return {"v": ch.choice(label + ".sstr", ["it's", 'say "hi"', "a\\b", "50%", "{x}", "a:b", "x=1, y=2", "#tag", "", " padded ", "tab\there", "caf\u00e9"])}
+        return {"v": ch.choice(label + ".sstr", ["it's", 'say "hi"', "a\\b", "50%", "{x}", "a:b", "x=1, y=2", "#tag", "", " padded ", "tab\there", "caf\u00e9",
+                                                   # quote characters at the ends: the same one, two different ones
+                                                   "'\"", "'%s\"", '"quoted"', "--name=\"x\""])}
     if base == "int":
         return {"v": ch.choice(label + ".int", [0, 1, 2, 3, 5, 10, 32, 100, -1, -7])}
     if base == "float":
@@ -367,7 +369,7 @@ def unrelated_statements(ch, label, colliding, k, after_def=None, local_name=Non
     kinds = kinds + ["async_local_class", "def_local_class"]
     # less common but perfectly legal module content
     kinds = kinds + ["type_checking_block", "conditional_def", "redefinition", "dunder_all", "unicode", "semicolons", "string_annotation",
-                     "type_comment", "star_args", "posonly", "decorated_function", "lambda_default", "walrus_fstring", "main_guard", "try_import"]
+                     "type_comment", "star_args", "posonly", "decorated_function", "lambda_default", "walrus_fstring", "main_guard", "try_import", "def_conditional_local_class", "except_fallback_class"]
     import sys as _sys
 
     if _sys.version_info[:2] >= (3, 12):
@@ -431,6 +433,14 @@ def unrelated_statements(ch, label, colliding, k, after_def=None, local_name=Non
             src = "def sorter_%s(key=lambda item: (item.%s, -item.rank), reverse=not True):\n    return sorted([], key=key, reverse=reverse)" % (tag, cname)
         elif kind == "walrus_fstring":
             src = "if (n_%s := len(sys.argv)) > 1:\n    banner_%s = f\"{n_%s!r:>4} args, {'%s'!s} last\"" % (tag, tag, tag, cname)
+        elif kind == "def_conditional_local_class":
+            # a plain function whose body defines, under a condition, a class that bears the name of the synchronised definition
+            tname = local_name or (colliding[0] if colliding else "Config")
+            src = ("def load_%s(legacy=False):\n    if legacy:\n        class %s(object):\n            old_style: int = 1\n\n        return %s\n    return None" % (tag, tname, tname))
+        elif kind == "except_fallback_class":
+            # the classic optional import with a fallback definition of the same name in the handler (no `as`)
+            tname = local_name or (colliding[0] if colliding else "Config")
+            src = "try:\n    from generated_%s import %s\nexcept ImportError:\n    class %s(object):\n        fallback: int = 1" % (tag, tname, tname)
         elif kind == "main_guard":
             src = "if __name__ == '__main__':\n    logging_%s = True" % tag
         elif kind == "try_import":
